@@ -19,7 +19,7 @@ from vlib import faultconn
 PROPERTY = "C03"
 LEVEL = "fault_enumeration"
 RULE = ("a case = (MAX_RETRIES 0..2, start sequence number in {0, 1, 0x7fff, 0xfff0..0xffff}, serializer, history of <= 12 operations "
-        "from {call, oneway, batch of 2, attribute read, stream of 2 items}, each with one fault per request message it may send "
+        "from {call, call whose method raises, oneway, batch of 2 and oneway batch of 2 (one re-used BatchProxy per case), attribute read, stream of 2 items}, each with one fault per request message it may send "
         "(1 + retries for calls) from {deliver, drop-request, reply-lost, reply-late, cut-reply at offset k, reset-after, alter-seq by d, "
         "replay-stale, duplicate, reset-while-the-server-decodes-the-request (calls and oneway calls, first attempt)}). Thorough tier additionally enumerates every cut offset of one reply. Non-trivial: the history "
         "contains a non-deliver fault followed by a later operation; distinct = distinct case JSON")
@@ -58,6 +58,11 @@ def _classes():
                 EXEC["prop"] = EXEC.get("prop", 0) + 1
                 return ["prop", EXEC["prop"]]
 
+        def boom(self, token, extra=None):
+            with LOCK:
+                EXEC[token] = EXEC.get(token, 0) + 1
+            raise ValueError("boom", token)
+
         def gen(self, token):
             with LOCK:
                 EXEC[token] = EXEC.get(token, 0) + 1
@@ -85,7 +90,7 @@ fault = st.one_of(
     st.tuples(st.just("replay-stale"), st.integers(0, 5)).map(list),
 )
 op = st.fixed_dictionaries({
-    "kind": st.sampled_from(["call", "call", "call", "oneway", "batch", "getattr", "stream"]),
+    "kind": st.sampled_from(["call", "call", "call", "oneway", "batch", "getattr", "stream", "raise", "raise", "batch-oneway"]),
     "faults": st.lists(fault, min_size=3, max_size=3),
 })
 
@@ -210,7 +215,7 @@ def run_case(case, servertype=None, keep=False):
             before = len(ctl.history)
             label = "op %d %s faults=%r" % (n, kind, faults)
             gate = None
-            if kind in ("call", "oneway") and faults and faults[0][0] == "reset-while-decoding":
+            if kind in ("call", "oneway", "raise") and faults and faults[0][0] == "reset-while-decoding":
                 # only the FIRST attempt can carry it (the argument's deserialiser waits for the harness)
                 ctl.gate_armed = True
                 ctl.decode_entered, ctl.decode_go = threading.Event(), threading.Event()
@@ -222,12 +227,21 @@ def run_case(case, servertype=None, keep=False):
                 for f in faults:
                     if f[0] == "reset-while-decoding":
                         f[0] = "reset-after"
-            if kind == "call":
+            if kind in ("call", "raise"):
                 ctl.script = faults[:1 + case["retries"]]
+                meth = p.work if kind == "call" else p.boom
                 try:
-                    res = ("ok", p.work(tok) if gate is None else p.work(tok, gate))
+                    res = ("ok", meth(tok) if gate is None else meth(tok, gate))
+                    if kind == "raise":
+                        res = ("other", "returned %r instead of raising" % (res[1],))
                 except errors.CommunicationError as x:
                     res = ("comm", x)
+                except ValueError as x:
+                    # the remote method's own exception is this call's answer: ValueError("boom", <its token>)
+                    if kind == "raise" and hasattr(x, "_pyroTraceback") and len(x.args) == 2 and x.args[0] == "boom" and isinstance(x.args[1], int):
+                        res = ("ok", answer(x.args[1]))
+                    else:
+                        res = ("other", x)
                 except Exception as x:
                     res = ("other", x)
                 attempts = ctl.history[before:]
@@ -266,9 +280,29 @@ def run_case(case, servertype=None, keep=False):
                 o["_tok"], o["_want"] = tok, want_exec
                 if attempts and attempts[-1][0][0] == "reset-while-decoding":
                     state["stale"] = True       # the connection is dead but the proxy cannot know yet: the NEXT exchange may fail
+            elif kind == "batch-oneway":
+                # a oneway batch through the case's (re-used) BatchProxy: nothing comes back; its two calls run once per delivery
+                ctl.script = faults[:1]
+                b = state.setdefault("bp", api.BatchProxy(p))
+                b.work(tok)
+                b.work(tok)
+                try:
+                    res = ("ok", b(oneway=True))
+                except errors.CommunicationError as x:
+                    res = ("comm", x)
+                except Exception as x:
+                    res = ("other", x)
+                attempts = ctl.history[before:]
+                if res[0] != "ok":
+                    state.pop("bp", None)       # a BatchProxy whose submission failed keeps its calls queued: not re-used (unspecified)
+                if res[0] == "ok" and res[1] is not None:
+                    viol("oneway-returned-value", "%s returned %r" % (label, res[1]))
+                if res[0] == "other":
+                    viol("wrong-exception:oneway", "%s raised %r" % (label, res[1]))
+                o["_tok"], o["_want"] = tok, 2 * sum(1 for a in attempts if a[2])
             elif kind == "batch":
                 ctl.script = faults[:1]
-                b = api.BatchProxy(p)
+                b = state.setdefault("bp", api.BatchProxy(p))      # one BatchProxy per case, re-used (supported usage)
                 b.work(tok)
                 b.work(tok)
                 try:
@@ -278,6 +312,8 @@ def run_case(case, servertype=None, keep=False):
                 except Exception as x:
                     res = ("other", x)
                 attempts = ctl.history[before:]
+                if res[0] != "ok":
+                    state.pop("bp", None)       # (see above)
                 if res[0] == "ok":
                     try:
                         good = [list(r) for r in res[1]] == [answer(tok), answer(tok)]
